@@ -138,12 +138,18 @@ fn find_and_print<S>(env: &Env<S>, name: Field, result: &mut String) -> Result<(
 /// This function appends a string of the form `name=value\n` to `result`.
 fn print(alias: &Alias, result: &mut String) {
     use std::fmt::Write as _;
-    writeln!(
-        result,
-        "{}={}",
-        quoted(&alias.name),
-        quoted(&alias.replacement),
-    )
+    let name = quoted(&alias.name);
+    let value = quoted(&alias.replacement);
+    // The name and value are printed as parts of a single word, which may need
+    // quoting as a whole even if neither part does. (For example, a `[` in
+    // the name and a `]` in the value make up a bracket expression.)
+    let parts = format!("{}{}", alias.name, alias.replacement);
+    if !name.needs_quoting() && !value.needs_quoting() && quoted(&parts).needs_quoting() {
+        let definition = format!("{}={}", alias.name, alias.replacement);
+        writeln!(result, "{}", quoted(&definition))
+    } else {
+        writeln!(result, "{name}={value}")
+    }
     .unwrap();
 }
 
